@@ -61,8 +61,10 @@ func GenScript(r *lib.Rand, o ScriptOpts) *ast.Chain {
 			}
 		}
 		c.Statements = append(c.Statements, ast.Statement{Name: ast.Identifier(name), Expr: e})
-		if vals, _, rej := Interp(c); rej == "" {
-			length = len(vals)
+		if !o.BigNumbers {
+			if vals, _, rej := Interp(c); rej == "" {
+				length = len(vals)
+			}
 		}
 		if name != "" && !used[name] {
 			used[name] = true
@@ -168,4 +170,26 @@ var Rejections = []string{
 	"a = 1 + 1\nb = a\nreturn b + a", "a = 1 + 1\nb = a\nc = b\nreturn c + a + b", "a = 1\nb = [0]\nreturn a + b", "a = 1 + 1\nreturn a", "a = 1 + 1\nb = a << 0\nreturn b + a",
 	"a = 2*1\nb = a + 1\nreturn (b << 2) + (a + [2])", "return (1 + 1) + (1 + 1)", "return 1 + (1 + 1)", "return 1 + 1 + 1", "return ((1 << 1) << 2) + 2*(2*1)",
 	"_10 = 2*1\n_11 = 1 + _10\n_1100 = _11 << 2\nreturn _1100 + _11",
+}
+
+// NestedTrees returns trees whose printed form nests parentheses about k deep:
+// right-nested additions, shift of shift, double of double, and a mix.
+func NestedTrees(k int) []ast.Expr {
+	var radd, sh, db, mix ast.Expr = ast.Add{X: ast.Operand(0), Y: ast.Operand(0)}, ast.Operand(0), ast.Operand(0), ast.Identifier("x")
+	for i := 0; i < k; i++ {
+		radd = ast.Add{X: ast.Operand(0), Y: radd}
+		sh = ast.Shift{X: sh, S: 1}
+		db = ast.Double{X: db}
+		if i%2 == 0 {
+			switch (i / 2) % 3 {
+			case 0:
+				mix = ast.Shift{X: ast.Add{X: mix, Y: ast.Operand(0)}, S: 2}
+			case 1:
+				mix = ast.Double{X: mix}
+			default:
+				mix = ast.Add{X: ast.Operand(0), Y: ast.Add{X: ast.Operand(0), Y: mix}}
+			}
+		}
+	}
+	return []ast.Expr{radd, sh, db, mix}
 }
